@@ -282,7 +282,7 @@ class FSTarget(MockTarget):
             for x in op[1:]:
                 pth = x[1] if isinstance(x, tuple) and len(x) == 2 and x[0] == 1 and isinstance(x[1], tuple) else x
                 if isinstance(pth, tuple) and all(isinstance(n, str) for n in pth):
-                    for n in range(1, len(pth) - 1):
+                    for n in range(1, len(pth)):
                         if os.path.isfile(self.root + "/" + "/".join(pth[:n])):
                             return [1, 21]
         return r
